@@ -22,9 +22,17 @@ fn gen_chain(ch: &mut Chooser) -> JobSpec {
         3 => ch.range(81, 1200) as usize,
         _ => ch.range(1201, 5000) as usize,
     };
+    // a quarter of the chains are slow and bursty: pauses longer than the adaptive delay between
+    // bursts of a few elements, so that batches leave by timeout rather than by size
+    let paced = ch.flag(1, 4);
+    let n = if paced { ch.range(20, 90) as usize } else { n };
     let a = ch.next() as u64;
     let data: Vec<Rec> = (0..n).map(|i| Rec::new((crate::rec::mix64(a << 20 | i as u64) % 2001) as i64 - 1000)).collect();
     let mut stages = Vec::new();
+    if paced {
+        stages.push(Stage::Batch(BatchSpec::Adaptive([100, 1024][ch.below(2)], 1)));
+        stages.push(Stage::Map(MapFn::Paced(ch.range(2, 4), [1500u32, 3000][ch.below(2)])));
+    }
     let blocks = 1 + ch.below(6);
     let mut b = 1;
     let mut bound = n;
@@ -114,6 +122,7 @@ fn run(ctx: &Ctx, mode: &str) -> Report {
                 let blocks = 1 + job.pipe.stages.iter().filter(|s| matches!(s, Stage::Replicate(_))).count();
                 rep.class_if(cfg.layout.is_remote(), "config:multi_host");
                 rep.class_if(blocks >= 3, "chain_of_3_or_more_blocks");
+                rep.class_if(job.pipe.stages.iter().any(|s| matches!(s, Stage::Map(MapFn::Paced(..)))), "slow_bursty_stream");
                 rep.class_if(max_batches >= 3, "link_with_3_or_more_batches");
                 rep.class_if(job.pipe.stages.iter().any(|s| matches!(s, Stage::RichIndex)), "stateful_rich_map");
                 rep.sample(json!({"job": {"source_len": job.pipe.source.len(), "stages": job.pipe.stages}, "config": cfg}));
@@ -144,7 +153,7 @@ pub fn def() -> CheckDef {
     CheckDef {
         id: "C16",
         level: "exploration",
-        rule: "(a) chains of 1-6 single-replica blocks (stream_iter, replication(One) edges, map, filter, flat_map, filter_map, stateful rich_map) x every batch mode x 0-5000 elements x local and multi-host layouts: collect_vec must equal the corresponding iterator chain as a sequence; (b) timestamped jobs with reorder(): per replica and iteration the output is a permutation of the input with non-decreasing timestamps, and an element with timestamp t leaves only after the input showed a watermark >= t or the end of the iteration (same-thread probe order); a third mode runs reorder in chains of single-replica blocks fed by ONE scripted source replica over 1-3 iterations (timestamps restart in every iteration); non-trivial = (a) >= 2 blocks and a link with >= 3 batches, (b) >= 3 released elements checked against the release rule; distinct = hash of (job, configuration)",
+        rule: "(a) chains of 1-6 single-replica blocks (stream_iter, replication(One) edges, map, filter, flat_map, filter_map, stateful rich_map) x every batch mode x 0-5000 elements (a quarter of the chains are slow and bursty: 20-90 elements, adaptive batching with a 1 ms delay, a map that pauses 1.5-3 ms before every 2nd-4th element) x local and multi-host layouts: collect_vec must equal the corresponding iterator chain as a sequence; (b) timestamped jobs with reorder(): per replica and iteration the output is a permutation of the input with non-decreasing timestamps, and an element with timestamp t leaves only after the input showed a watermark >= t or the end of the iteration (same-thread probe order); a third mode runs reorder in chains of single-replica blocks fed by ONE scripted source replica over 1-3 iterations (timestamps restart in every iteration); non-trivial = (a) >= 2 blocks and a link with >= 3 batches, (b) >= 3 released elements checked against the release rule; distinct = hash of (job, configuration)",
         assumptions: &["the release rule is checked with probes immediately before and after reorder() in the same block"],
         modes: |t| vec![("chains", t.pick(8, 12)), ("reorder", t.pick(4, 6)), ("reorder_iter", t.pick(3, 4))],
         run,
